@@ -15,6 +15,8 @@
 (***************************************************************************)
 EXTENDS Ctx
 
+CONSTANT MaxSteps      \* instruction budget of one run; exceeding it is `inconclusive`, never a verdict
+
 MaxStack == 1000
 MaxLogs == 32
 MaxLogBytes == 1024
@@ -315,8 +317,6 @@ Exec(P, R, ctx, m) ==
                          ELSE Apply(m, pops, Ok1(IF f \in DOMAIN t.f THEN t.f[f]
                                                   ELSE IF TxnFieldIsBytes(f) THEN B(<<>>) ELSE U0))
     [] OTHER -> MFail(m, "unknown-op:" \o op)
-
-MaxSteps == 20000
 
 MStep(P, R, ctx, m) ==
   IF m.status # "run" THEN m
